@@ -32,6 +32,7 @@ import itertools
 import json
 import os
 import random
+import re
 import shutil
 import signal
 import sys
@@ -139,6 +140,27 @@ CACHE_FILES = frozenset(["lrucache.py", "wildcard.py", "glob.py"])
 CACHE_PURE_FUNCS = frozenset(["_translate", "_translate_glob", "_split_pattern_by_sep"])  # pattern -> regex text
 _INCACHE = {}
 
+# "effect lines": lines of library code that touch state shared between threads (the operating
+# system, locks, the process-wide caches, the mutable fields of the filesystem objects).  A single
+# preemption right before such a line is ALWAYS explored; the other lines (thread-local work such as
+# path arithmetic) are sampled under the cap.
+import linecache
+EFFECT_RE = re.compile(
+    r"\b(os|io|shutil|stat|tempfile|platform|errno|sendfile)\.\w+\(|\bscandir\(|\bopen\(|\bmkdir\(|_lock\b|\.lock\b|"
+    r"_PATTERN_CACHE|_closed\b|_fs_sequence|\bmounts\b|_filesystems|write_fs|default_fs|\.root\b|_bytes_io|"
+    r"_dir_entry|\.get_entry\(|\.set_entry\(|\.remove_entry\(|_open_files|\._dir\b|\.pos\b|_cache\b|"
+    r"\bself\.\w+\s*(=|\+=)[^=]")
+_EFFECT = {}
+
+
+def effect_line(frame):
+    code = frame.f_code
+    k = (code, frame.f_lineno)
+    e = _EFFECT.get(k)
+    if e is None:
+        e = _EFFECT[k] = bool(EFFECT_RE.search(linecache.getline(code.co_filename, frame.f_lineno)))
+    return e
+
 _TRACED = {"shared": {}, "all": {}}
 _TRACED_CUR = _TRACED["shared"]
 _GRAIN_ALL = False
@@ -192,6 +214,7 @@ class Sched(object):
         self.rnd = rnd
         self.trace = []             # (choice, n candidates, stay, locks held, in cache code)
         self.incache = False
+        self.eff = False
         self.threads = [TCtl(i) for i in range(nthreads)]
         self.cur = None
         self.aborted = False
@@ -216,7 +239,7 @@ class Sched(object):
             else:
                 c = r.randrange(n)
         self.pos += 1
-        self.trace.append((c, n, stay, held, self.incache if stay else False))
+        self.trace.append((c, n, stay, held, self.incache if stay else False, self.eff if stay else False))
         return c
 
     def _pick(self, me):
@@ -282,8 +305,10 @@ class Sched(object):
                 ic = _INCACHE[code] = (os.path.basename(code.co_filename) in CACHE_FILES
                                        and code.co_name not in CACHE_PURE_FUNCS)
             self.incache = ic
+            self.eff = effect_line(frame)
         else:
             self.incache = False
+            self.eff = True         # a lock operation
         nxt = self._pick(me)
         if nxt is None:
             self._dead()
@@ -540,7 +565,7 @@ def memory_invariants(mem):
 
 # template -> (method name, needs)
 TEMPLATES = [
-    "makedir", "makedirs", "writebytes", "appendbytes", "readbytes", "remove", "removedir",
+    "makedir", "makedir!", "makedirs", "writebytes", "appendbytes", "readbytes", "remove", "removedir",
     "removetree", "move", "move>", "copy", "copy>", "movedir", "movedir>", "copydir",
     "copydir>", "getinfo", "listdir", "exists", "isempty", "create", "touch", "setinfo",
     "glob", "walk",
@@ -550,7 +575,7 @@ CACHE_USERS = frozenset(["glob", "walk"])
 
 
 def method_of(tpl):
-    return tpl.rstrip(">")
+    return tpl.rstrip(">!")
 
 
 def make_call(tpl, p, t):
@@ -585,7 +610,10 @@ def do_call(inst, t, call):
     P = inst.path
     try:
         if m == "makedir":
-            f.makedir(P(a[0]))
+            if call["tpl"].endswith("!"):
+                f.makedir(P(a[0]), recreate=True)
+            else:
+                f.makedir(P(a[0]))
             return "ok"
         if m == "makedirs":
             f.makedirs(P(a[0]), recreate=True)
@@ -1001,16 +1029,22 @@ def plan_schedules(case, params, rnd, stats):
     level1 = []
     if bound >= 1:
         cand = []
+        must = []       # preemptions of a thread holding no lock right before an effect line, and free choices
         for sched0, res in roots:
             if res is None:
                 continue
-            for i, (c, n, stay, held, ic) in enumerate(res.trace):
+            for i, (c, n, stay, held, ic, eff) in enumerate(res.trace):
                 if i == 0 or n < 2:
                     continue        # i == 0 is the initial pick (the roots)
                 for alt in range(n):
                     if alt != c:    # stay: a preemption; not stay: another free choice
-                        cand.append(([x[0] for x in res.trace[:i]] + [alt], i, held, ic))
-        stats["l1_total"] = len(cand)
+                        (must if (eff and held == 0) or not stay else cand).append(
+                            ([x[0] for x in res.trace[:i]] + [alt], i, held, ic))
+        stats["l1_total"] = len(cand) + len(must)
+        stats["l1_effect"] = len(must)
+        if len(must) > params.get("cap_effect", 400):
+            must = rnd.sample(must, params.get("cap_effect", 400))
+            stats["l1_effect_capped"] = True
         if len(cand) > params["cap1"]:
             # preemptions of a thread that holds no lock first (the gaps of check-then-act
             # sequences), the rest of the budget on preemptions inside locked regions
@@ -1019,6 +1053,7 @@ def plan_schedules(case, params, rnd, stats):
             k_free = min(len(free), max(params["cap1"] * 3 // 4, params["cap1"] - len(held_)))
             cand = rnd.sample(free, k_free) + rnd.sample(held_, params["cap1"] - k_free)
             cand.sort(key=lambda x: x[1])
+        cand = sorted(must + cand, key=lambda x: x[1])
         for sch, i, _h, ic in cand:
             res = yield ("p1", sch, None)
             stats["l1_run"] += 1
@@ -1033,7 +1068,7 @@ def plan_schedules(case, params, rnd, stats):
             if not ic:
                 continue
             for j in range(i + 1, len(res.trace)):
-                c, n, stay, _h, ic2 = res.trace[j]
+                c, n, stay, _h, ic2 = res.trace[j][:5]
                 if n > 1 and (ic2 or not stay):
                     for alt in range(n):
                         if alt != c:
@@ -1175,8 +1210,8 @@ def tier_plan(tier, seed):
         for kind in FS_KINDS:
             mem = kind == "MemoryFS"
             cases = pair_cases(kind, tier, seed)
-            if not mem:
-                # the other kinds delegate to the same MemoryFS / OS code: every fourth case
+            if not mem and kind != "OSFS":
+                # the composite kinds delegate to the same MemoryFS / OS code: every fourth case
                 off = FS_KINDS.index(kind)
                 cases = [c for k, c in enumerate(cases) if (k + off + seed) % 4 == 0]
             plan.append((cases, dict(bound=1, cap1=14, cap2=0, random=26, uniform=0)))
@@ -1273,7 +1308,7 @@ def explore(tier, seed, procs=None, budget_s=None, plan=None):
     if procs is None:
         procs = min(16, os.cpu_count() or 1)
     if budget_s is None:
-        budget_s = 840 if tier == "thorough" else 55
+        budget_s = 840 if tier == "thorough" else 170
     units = []
     for cases, params in plan:
         size = params.get("unit") or (6 if tier == "thorough" else 12)
